@@ -218,13 +218,14 @@ type c14Case struct {
 	Status2  int    // second, superfluous WriteHeader
 	Trailer  bool
 	Empty    bool // zero-length first write
+	AskUp    bool // the request asks for a protocol upgrade (which the handler / backend declines)
 	Declare  bool
 	Interim  int
 	Entity   int // bodiless response that declares this entity length (HEAD, 304); 0 = none
 }
 
 func (c c14Case) String() string {
-	return fmt.Sprintf("L=%d pos=%s %s status=%d writes=%v flush=%s declare=%v interim=%d entity=%d status2=%d trailer=%v emptywrite=%v", c.L, c.Position, c.Method, c.Status, c.Comp, c.Flush, c.Declare, c.Interim, c.Entity, c.Status2, c.Trailer, c.Empty)
+	return fmt.Sprintf("L=%d pos=%s %s status=%d writes=%v flush=%s declare=%v interim=%d entity=%d status2=%d trailer=%v emptywrite=%v asks-upgrade=%v", c.L, c.Position, c.Method, c.Status, c.Comp, c.Flush, c.Declare, c.Interim, c.Entity, c.Status2, c.Trailer, c.Empty, c.AskUp)
 }
 
 func (c c14Case) prog() *hprog {
@@ -341,6 +342,9 @@ func TestVerifC14(t *testing.T) {
 			run := func(c c14Case) {
 				p := c.prog()
 				req := &wire.Request{Method: c.Method, Target: "/p", Header: []wire.HeaderLine{{"Host", "x.test"}}, NoBody: true}
+				if c.AskUp {
+					req.Header = append(req.Header, wire.HeaderLine{"Connection", "Upgrade"}, wire.HeaderLine{"Upgrade", "h2c"})
+				}
 				psWith.set(p)
 				rw := ew.do(req, dl)
 				psWithout.set(p)
@@ -419,6 +423,19 @@ func TestVerifC14(t *testing.T) {
 					run(c14Case{L: L, Position: pos, Method: "GET", Status: st[0], Status2: st[1], Comp: comp, Flush: "none"})
 				}
 			}
+			// a request that asks for a protocol upgrade which is declined: an ordinary exchange, the
+			// limits apply
+			for _, st := range []int{200, 404} {
+				for _, n := range []int{0, L, L + 1, L + 3} {
+					comp := []int{}
+					if n > 0 {
+						comp = []int{n}
+					}
+					for _, decl := range []bool{false, true} {
+						run(c14Case{L: L, Position: pos, Method: "GET", Status: st, Comp: comp, Flush: "none", Declare: decl, AskUp: true})
+					}
+				}
+			}
 			// response trailers and a zero-length first write
 			for _, st := range []int{0, 200, 404} {
 				for _, n := range []int{0, 1, L, L + 1} {
@@ -452,6 +469,10 @@ func TestVerifC14(t *testing.T) {
 				for _, chunked := range []bool{false, true} {
 					body := pattern(n, 9)
 					req := &wire.Request{Method: "POST", Target: "/u", Header: []wire.HeaderLine{{"Host", "x.test"}}, Body: body, Chunked: chunked, ChunkSz: 2}
+					if n == 4*L {
+						// the far-too-large upload also asks for an upgrade (declined): still bounded
+						req.Header = append(req.Header, wire.HeaderLine{"Connection", "Upgrade"}, wire.HeaderLine{"Upgrade", "h2c"})
+					}
 					psWith.set(&hprog{Status: 200, Parts: [][]byte{[]byte("k")}})
 					rw := ew.do(req, dl)
 					calls, read, rerr := psWith.stats()
@@ -549,6 +570,26 @@ func TestVerifC14(t *testing.T) {
 							}
 						}
 					}
+				}
+			}
+			// requests that ask for an upgrade the backend declines, through the proxy
+			for _, n := range []int{L, L + 1, L + 3} {
+				sc := &wire.Script{Status: 200, Header: []wire.HeaderLine{{"Content-Type", "text/plain"}}, Parts: partsOf([]int{n}, 5), DeclareLen: true}
+				req := &wire.Request{Method: "GET", Target: "/p", Header: []wire.HeaderLine{{"Host", "x.test"}, {"Connection", "Upgrade"}, {"Upgrade", "h2c"}}, NoBody: true}
+				be.Next(sc)
+				rw := ew.do(req, dl)
+				be.Next(sc)
+				ro := eo.do(req, dl)
+				be.Next(nil)
+				evals++
+				c := c14Case{L: L, Position: "proxy-" + pos, Method: "GET", Status: 200, Comp: []int{n}, Flush: "length", Declare: true, AskUp: true}
+				key, what := c14JudgeResponse(c, rw, ro)
+				if key == "tool" {
+					t.Fatalf("%s: %s", c, what)
+				}
+				outs.Add(fmt.Sprintf("proxy-askup/%d/%v", rw.Status, key == ""))
+				if key != "" {
+					r.Violate(strings.Replace(key, "C14/", "C14/proxied/", 1), fmt.Sprintf("%s: %s", c, what), n*10+1, map[string]interface{}{"engine": "W", "test": "TestVerifC14", "mount": "proxy", "case": c})
 				}
 			}
 			// HEAD / 304 answers declaring the entity's length, through the proxy
